@@ -1264,6 +1264,12 @@ func (db *DB) Repair(of Object) (err error) {
 		return
 	}
 
+	// accepted writes which are still pending belong to the collection:
+	// rebuilding the index from the files without them would lose them
+	if err = db.flushAll(of); err != nil {
+		return
+	}
+
 	// a directory which is gone holds no object file (control sees it
 	// this way too): every entry has to go
 	if uuids, err = uuidsFromDir(dir); err != nil && !os.IsNotExist(err) {
